@@ -12,6 +12,7 @@ import (
 	"io"
 	"net"
 	"os"
+	"sync"
 	"testing"
 	"time"
 
@@ -51,7 +52,18 @@ type c01Dual struct {
 	Enable6   bool `json:"en6"`
 	Client6   bool `json:"client6"` // registrant address family
 }
+type c01ConcItem struct {
+	Secret string `json:"secret"`
+	LV     uint32 `json:"lv"`
+	V6     bool   `json:"v6"`
+}
+type c01Conc struct {
+	Workers int           `json:"workers"`
+	Rounds  int           `json:"rounds"`
+	Items   []c01ConcItem `json:"items"`
+}
 type c01Case struct {
+	Conc      *c01Conc  `json:"conc"`
 	Dual      *c01Dual  `json:"dual"`
 	Secret    string    `json:"secret"`
 	ClientGen bool      `json:"client_gen"`
@@ -89,6 +101,10 @@ type c01Res struct {
 	DualV6   []bool    `json:"dual_v6,omitempty"`
 	DualErr  string    `json:"dual_err,omitempty"`
 	Twin     *c01Res   `json:"twin,omitempty"`
+	// registrations built by concurrent workers on one manager vs the serial derivation
+	ConcRuns  int    `json:"conc_runs,omitempty"`
+	ConcDiffs int    `json:"conc_diffs,omitempty"`
+	ConcDiff  string `json:"conc_diff,omitempty"`
 }
 
 type c01Conn struct{ w []byte }
@@ -501,6 +517,67 @@ func c01DualRun(rm *RegistrationManager, stationPriv, stationPub [32]byte, cs c0
 	return
 }
 
+// the same registrations (min transport, no params) built serially and then by concurrent workers on ONE manager
+func c01ConcRun(rm *RegistrationManager, cs c01Case) (res c01Res) {
+	sel := &phantoms.PhantomIPSelector{Networks: map[uint]*phantoms.SubnetConfig{}}
+	if cs.Cfg != nil {
+		sel.Networks[7] = &phantoms.SubnetConfig{WeightedSubnets: c01List(cs.Cfg)}
+	}
+	rm.PhantomSelector = sel
+	tt := pb.TransportType_Min
+	gen := uint32(7)
+	covert := "192.0.2.1:443"
+	src := pb.RegistrationSource_API
+	build := func(it c01ConcItem) string {
+		defer func() { _ = recover() }()
+		secret, _ := hex.DecodeString(it.Secret)
+		lv := it.LV
+		t4, t6 := !it.V6, it.V6
+		c2s := &pb.ClientToStation{ClientLibVersion: &lv, Transport: &tt, CovertAddress: &covert,
+			DecoyListGeneration: &gen, V4Support: &t4, V6Support: &t6}
+		c2sw := &pb.C2SWrapper{SharedSecret: secret, RegistrationPayload: c2s, RegistrationSource: &src,
+			RegistrationAddress: []byte{198, 51, 100, 9}}
+		reg, err := rm.NewRegistrationC2SWrapper(c2sw, it.V6)
+		if err != nil || reg == nil {
+			return "err"
+		}
+		return fmt.Sprintf("%x:%d", []byte(reg.PhantomIp), reg.PhantomPort)
+	}
+	serial := make([]string, len(cs.Conc.Items))
+	for i, it := range cs.Conc.Items {
+		serial[i] = build(it)
+	}
+	var mu sync.Mutex
+	var wg sync.WaitGroup
+	start := make(chan struct{})
+	for w := 0; w < cs.Conc.Workers; w++ {
+		wg.Add(1)
+		go func(w int) {
+			defer wg.Done()
+			<-start
+			for k := 0; k < cs.Conc.Rounds; k++ {
+				for j := range cs.Conc.Items {
+					i := (j + w) % len(cs.Conc.Items)
+					got := build(cs.Conc.Items[i])
+					mu.Lock()
+					res.ConcRuns++
+					if got != serial[i] {
+						res.ConcDiffs++
+						if res.ConcDiff == "" {
+							res.ConcDiff = fmt.Sprintf("secret %s libver %d v6 %v: serial %s, concurrent %s",
+								cs.Conc.Items[i].Secret, cs.Conc.Items[i].LV, cs.Conc.Items[i].V6, serial[i], got)
+						}
+					}
+					mu.Unlock()
+				}
+			}
+		}(w)
+	}
+	close(start)
+	wg.Wait()
+	return
+}
+
 func isNilMsg(m proto.Message) bool {
 	switch v := m.(type) {
 	case *pb.GenericTransportParams:
@@ -547,7 +624,9 @@ func TestVerifC01Derive(t *testing.T) {
 	}
 	res := make([]c01Res, len(cases))
 	for i, c := range cases {
-		if c.Dual != nil {
+		if c.Conc != nil {
+			res[i] = c01ConcRun(rm, c)
+		} else if c.Dual != nil {
 			res[i] = c01DualRun(rm, priv, pub, c)
 		} else {
 			res[i] = c01Run(rm, priv, pub, c)
